@@ -14,16 +14,22 @@ CONSTANTS RLs, HOSTs, FRs, FR2s, XHs, BLANKs, BODYs, TAILs,     \* index sets pe
           SLs, RHs, RH2s, RBs,                                   \* index sets per slot (client)
           Dev                                                     \* max number of non-default slots
 
-NonDefault(x) == Cardinality({i \in DOMAIN x : x[i] # 1})
+(* index vectors are built, not filtered out of the full product (10^8 tuples with the full tables) *)
+Vary(def, Slot(_), n) ==
+    LET one == UNION {{[def EXCEPT ![i] = v] : v \in Slot(i)} : i \in 1..n}
+        two == UNION {{[x EXCEPT ![j] = u] : u \in Slot(j)} : x \in one, j \in 1..n}
+        three == UNION {{[x EXCEPT ![j] = u] : u \in Slot(j)} : x \in two, j \in 1..n} IN
+    IF Dev = 0 THEN {def} ELSE IF Dev = 1 THEN one \cup {def} ELSE IF Dev = 2 THEN two \cup {def} ELSE three \cup {def}
 
-ReqIdx == {x \in RLs \X HOSTs \X FRs \X FR2s \X XHs \X BLANKs \X BODYs \X TAILs :
-              \/ NonDefault(x) <= Dev
-              \/ (x[1] = 1 /\ x[2] = 1 /\ x[5] = 1 /\ x[6] = 1 /\ x[8] \in {1, 2})}
+ReqSlot(i) == CASE i = 1 -> RLs [] i = 2 -> HOSTs [] i = 3 -> FRs [] i = 4 -> FR2s [] i = 5 -> XHs
+                [] i = 6 -> BLANKs [] i = 7 -> BODYs [] i = 8 -> TAILs
+ReqIdx == Vary(<<1, 1, 1, 1, 1, 1, 1, 1>>, ReqSlot, 8)
+          \cup {<<1, 1, f, g, 1, 1, b, t>> : f \in FRs, g \in FR2s, b \in BODYs, t \in TAILs \cap {1, 2}}
 ReqWire(x) == RL[x[1]] \o HOST[x[2]] \o FR[x[3]] \o FR2[x[4]] \o XH[x[5]] \o BLANK[x[6]] \o BODY[x[7]] \o TAIL[x[8]]
 
-RespIdx == {x \in SLs \X RHs \X RH2s \X BLANKs \X RBs :
-              \/ NonDefault(x) <= Dev
-              \/ (x[3] = 1 /\ x[4] = 1)}
+RespSlot(i) == CASE i = 1 -> SLs [] i = 2 -> RHs [] i = 3 -> RH2s [] i = 4 -> BLANKs [] i = 5 -> RBs
+RespIdx == Vary(<<1, 1, 1, 1, 1>>, RespSlot, 5)
+           \cup {<<a, h, 1, 1, b>> : a \in SLs, h \in RHs, b \in RBs}
 RespWire(x) == SL[x[1]] \o RH[x[2]] \o RH2[x[3]] \o BLANK[x[4]] \o RB[x[5]]
 
 (* requests with a gzip body: POST, Content-Encoding: gzip, the member GzTable[g].enc framed by
